@@ -527,9 +527,18 @@ package url
 //@   requires okOpts(p) && okOpts(parser) && u != nil
 //@   modifies u.validationErrors, u.validationErrors[..], u.isIPv4, u.isIPv6
 //@   ensures arr(u.validationErrors) == old(arr(u.validationErrors)) || fresh(u.validationErrors)
+//@   ensures (p.opts.preParseHostFunc == nil && input != "" && input[0] == '[' && result1 == nil) ==> (len(input) >= 2 && input[len(input) - 1] == ']')   [C08 single-bracket-pair]
+//@   ensures (p.opts.preParseHostFunc == nil && input != "" && input[0] == '[' && result1 == nil) ==>
+//@           (exists a intarr, c int, l int :: specIsCompressL(a, c, l) && result0 == "[" + specIPv6Acc(a, c, 0, false, "") + "]")   [C08 result-is-canonical-text]
+//@   ensures (!isNotSpecial && p.opts.preParseHostFunc == nil && p.opts.postParseHostFunc == nil && !p.opts.laxHostParsing && input != "" && input[0] != '['
+//@            && result1 == nil && !specEndsInANumber(hostASCII(p, input))) ==> result0 == hostASCII(p, input)   [C09 decode-then-toascii-then-ipv4-test]
+//@   ensures (!isNotSpecial && p.opts.preParseHostFunc == nil && p.opts.postParseHostFunc == nil && !p.opts.laxHostParsing && input != "" && input[0] != '['
+//@            && result1 == nil && !specEndsInANumber(hostASCII(p, input))) ==> (forall k int :: 0 <= k && k < len(result0) ==> !specForbiddenDomain(result0[k]))   [C09 no-forbidden-domain-code-point]
+//@   ensures (isNotSpecial && p.opts.preParseHostFunc == nil && input != "" && input[0] != '[') ==> !u.isIPv4 || old(u.isIPv4)   [C07 non-special-hosts-never-reinterpreted]
 //@   loop 1 modifies u.validationErrors, u.validationErrors[..]
 //@   loop 1 invariant arr(u.validationErrors) == old(arr(u.validationErrors)) || fresh(u.validationErrors)
 //@   loop 1 invariant arr(u.validationErrors) == pre(arr(u.validationErrors)) || freshL(u.validationErrors)
+//@   loop 1 invariant !p.opts.laxHostParsing ==> (forall k int :: 0 <= k && k < $i ==> !specForbiddenDomain(asciiDomain[k]))
 
 // ---------------------------------------------------------------------------------------------------------------
 // url.go: Clone
@@ -1071,15 +1080,16 @@ package url
 //@   modifies u.validationErrors, u.validationErrors[..], u.isIPv6, input.pointer, input.eof
 //@   ensures arr(u.validationErrors) == old(arr(u.validationErrors)) || fresh(u.validationErrors)
 //@   ensures result1 == nil ==> u.isIPv6   [C08]
+//@   ensures result1 == nil ==> (exists a intarr, c int, l int :: specIsCompressL(a, c, l) && result0 == "[" + specIPv6Acc(a, c, 0, false, "") + "]")   [C08 result-is-canonical-text]
 //@   loop 1 modifies u.validationErrors, u.validationErrors[..], input.pointer, input.eof, address[..]
-//@   loop 1 invariant cur(input) && address != nil && fresh(address) && 0 <= pieceIdx && pieceIdx <= 8 && -1 <= compress && compress <= pieceIdx
+//@   loop 1 invariant cur(input) && address != nil && fresh(address) && 0 <= pieceIdx && pieceIdx <= 8 && -1 <= compress && compress <= pieceIdx   [C08]
 //@   loop 1 invariant input.pointer >= 0 && (input.eof || c == input.runes[input.pointer]) && (input.eof ==> c == 0xFFFD)
 //@   loop 1 invariant arr(u.validationErrors) == old(arr(u.validationErrors)) || fresh(u.validationErrors)
 //@   loop 1 invariant arr(u.validationErrors) == pre(arr(u.validationErrors)) || freshL(u.validationErrors)
 //@   loop 1 decreases input.length - input.pointer
 //@   loop 2 modifies input.pointer, input.eof
 //@   loop 2 invariant cur(input) && 0 <= length && length <= 4 && 0 <= value && value < 65536 && (length == 0 ==> (value == 0 && !input.eof))
-//@   loop 2 invariant (length == 1 ==> value < 16) && (length == 2 ==> value < 256) && (length == 3 ==> value < 4096)
+//@   loop 2 invariant (length == 1 ==> value < 16) && (length == 2 ==> value < 256) && (length == 3 ==> value < 4096)   [C08 at-most-four-hex-digits]
 //@   loop 2 invariant input.pointer == pre(input.pointer) + length && input.pointer >= 0
 //@   loop 2 invariant (input.eof || c == input.runes[input.pointer]) && (input.eof ==> c == 0xFFFD)
 //@   loop 2 decreases 4 - length
@@ -1091,7 +1101,7 @@ package url
 //@   loop 3 invariant arr(u.validationErrors) == pre(arr(u.validationErrors)) || freshL(u.validationErrors)
 //@   loop 3 decreases input.length - input.pointer
 //@   loop 4 modifies u.validationErrors, u.validationErrors[..], input.pointer, input.eof
-//@   loop 4 invariant cur(input) && -1 <= ipv4Piece && ipv4Piece <= 255 && (ipv4Piece >= 0 || (specIsDigit(c) && !input.eof))
+//@   loop 4 invariant cur(input) && -1 <= ipv4Piece && ipv4Piece <= 255 && (ipv4Piece >= 0 || (specIsDigit(c) && !input.eof))   [C08]
 //@   loop 4 invariant input.pointer >= pre(input.pointer) && (ipv4Piece >= 0 ==> input.pointer > pre(input.pointer))
 //@   loop 4 invariant input.pointer >= 0 && (input.eof || c == input.runes[input.pointer]) && (input.eof ==> c == 0xFFFD)
 //@   loop 4 invariant arr(u.validationErrors) == old(arr(u.validationErrors)) || fresh(u.validationErrors)
@@ -1103,10 +1113,11 @@ package url
 
 //@ func (*IPv6Addr).String
 //@   requires address != nil
-//@   loop 1 invariant 0 <= pieceIdx && pieceIdx <= 8 && 0 <= currentLength && currentLength <= pieceIdx && 0 <= compressLength && compressLength <= 8
-//@   loop 1 decreases 8 - pieceIdx
-//@   loop 2 invariant 0 <= pieceIdx && pieceIdx <= 8
-//@   loop 2 decreases 8 - pieceIdx
+//@   ensures exists c int, l int :: specIsCompressL(*address, c, l) && result == specIPv6Acc(*address, c, 0, false, "")   [C08 canonical-serialization]
+//@   loop 1 unroll 8
+//@   loop 1 exit-assert specIsCompressL(*address, (currentLength > 1 && currentLength > compressLength) ? currentIdx : compress,
+//@            (currentLength > 1 && currentLength > compressLength) ? currentLength : compressLength)   [C08 first-longest-run]
+//@   loop 2 unroll 8
 
 //@ func (IPv4Addr).String
 //@   ensures result == specIPv4Ser(address)   [C07]
